@@ -25,7 +25,7 @@ PROFILES = {
     "c03-structure": Profile("c03-structure", {
         "new_doc": 4, "new_sec": 14, "new_prop": 8, "create_section": 4, "create_property": 3,
         "append": 12, "insert": 8, "extend": 8, "remove": 6, "set_parent": 12, "setitem": 8,
-        "reorder": 3, "rename": 4, "clone": 6, "merge": 5, "set_link": 4, "set_include": 2, "save": 2, "merge_self": 2, "finalize": 1,
+        "reorder": 3, "rename": 4, "clone": 6, "merge": 5, "set_link": 4, "set_include": 2, "save": 2, "merge_self": 2, "bulk_create": 1, "finalize": 1,
         "clean": 2, "new_id": 1,
     }, fault_share=0.35),
 }
